@@ -140,7 +140,10 @@ def proof_stage(pid):
         if b.startswith("Axioms:"):
             for m in re.finditer(r"^([A-Za-z_][\w.']*)\s*:", b[len("Axioms:"):], re.M):
                 axioms.add(m.group(1))
-    res["axioms"] = sorted(axioms)
+    res["axioms"] = sorted(a for a in axioms if not (a.startswith("PrimInt63.") or a.startswith("Uint63.")))
+    if any(a.startswith("PrimInt63.") or a.startswith("Uint63.") for a in axioms):
+        res["axioms"].append("Coq stdlib primitive 63-bit integers: PrimInt63.* operations and Uint63.*_spec axioms (%d names, via Bignums BigZ / Interval)"
+                             % len([a for a in axioms if a.startswith("PrimInt63.") or a.startswith("Uint63.")]))
     missing = [t for t in thms if t not in printed]
     if missing:
         res["log"] = "theorems without Print Assumptions: %s" % missing
@@ -148,7 +151,11 @@ def proof_stage(pid):
     if len(blocks) < len(printed):
         res["log"] = "Print Assumptions produced %d blocks for %d requests" % (len(blocks), len(printed))
         return res
-    extra = [a for a in axioms if a not in STD_AXIOMS and a.split(".")[-1] not in STD_AXIOMS]
+    # primitive 63-bit integers of the standard library (operations + their specification axioms in
+    # Coq.Numbers.Cyclic.Int63): reached through Bignums' BigZ, on which Interval's floats are built
+    prim = [a for a in axioms if a.startswith("PrimInt63.") or a.startswith("Uint63.")]
+    res["primitive_int63"] = len(prim)
+    extra = [a for a in axioms if a not in STD_AXIOMS and a.split(".")[-1] not in STD_AXIOMS and a not in prim]
     if extra:
         res["log"] = "axioms outside the allowlist: %s" % extra
         return res
